@@ -8,6 +8,7 @@ require (
 	github.com/bmatcuk/doublestar/v4 v4.8.1
 	github.com/go-jose/go-jose/v4 v4.0.5
 	github.com/google/uuid v1.6.0
+	github.com/rs/cors v1.11.1
 	github.com/zitadel/oidc/v3 v3.0.0
 	github.com/zitadel/schema v1.3.1
 	golang.org/x/net v0.36.0
@@ -22,7 +23,6 @@ require (
 	github.com/gorilla/securecookie v1.1.2 // indirect
 	github.com/muhlemmer/gu v0.3.1 // indirect
 	github.com/muhlemmer/httpforwarded v0.1.0 // indirect
-	github.com/rs/cors v1.11.1 // indirect
 	github.com/sirupsen/logrus v1.9.3 // indirect
 	github.com/zitadel/logging v0.6.2 // indirect
 	go.opentelemetry.io/otel v1.29.0 // indirect
